@@ -1,3 +1,3 @@
 #!/bin/bash
-cd /verif
+cd ${VERIF_HOME:-/verif}
 for d in "$@"; do s=$(basename $d); p=${s:0:3}; tools/seed_run.sh $d $p | cut -c1-400; done
